@@ -24,7 +24,10 @@ type Event struct {
 	Tid   int      `json:"tid"` // harness thread id registered for the goroutine, -1 if none
 	Point string   `json:"p"`
 	Keys  []string `json:"k,omitempty"`
+	T     int64    `json:"t"` // microseconds since the process started (for liveness verdicts only)
 }
+
+var t0 = time.Now()
 
 // ParkRule: the N-th arrival (1-based, 0 = every) at Point whose keys contain all of Keys
 // waits until Until has been passed at least once (by anyone, with UntilKeys) or Timeout.
@@ -157,7 +160,7 @@ func (r *Runtime) append(g int64, point string, keys []string) int {
 		tid = -1
 	}
 	seq := len(r.log)
-	r.log = append(r.log, Event{Seq: seq, G: g, Tid: tid, Point: point, Keys: append([]string(nil), keys...)})
+	r.log = append(r.log, Event{Seq: seq, G: g, Tid: tid, Point: point, Keys: append([]string(nil), keys...), T: int64(time.Since(t0) / time.Microsecond)})
 	r.passed[point] = append(r.passed[point], keys)
 	r.cond.Broadcast()
 	return seq
